@@ -157,11 +157,50 @@ let do_case (w : string list) : string =
   done;
   Buffer.contents buf
 
+(* CHAIN <function sym> <constant sym> <N> <nruns> {run}: the program F(F(...F(X0, c)..., c), c)
+   nested N deep.  Its denotation is computed by accumulation from the leaf: by den's
+   compositionality (C01_only_asked_arguments_matter: a node's value depends only on the
+   denotations of the children it asks for) the value of level k+1 is den of the node applied to
+   the CONSTANT holding the value of level k.  The machine is not run on these (the extracted
+   unary-nat machine is quadratic in the depth): R repeats D. *)
+let do_chain (w : string list) : string =
+  let toks = ref w in
+  let next () = match !toks with [] -> failwith "short line" | t :: r -> toks := r; t in
+  let nexti () = int_of_string (next ()) in
+  let fsym = parse_sym (next ()) in
+  let csym = parse_sym (next ()) in
+  let n = nexti () in
+  let zero = F64.of_bits Z0 in
+  let cnode = Node (csym, zero, []) in
+  let buf = Buffer.create 256 in
+  Buffer.add_string buf "W 1";
+  let nruns = nexti () in
+  for _ = 1 to nruns do
+    let mode = next () in
+    let _ = nexti () in
+    let _ = nexti () in
+    let nvals = nexti () in
+    let ex = List.init nvals (fun _ -> parse_value (next ())) in
+    let src = not (mode = "b" || mode = "B") in
+    let vars = vars_of src (if src then Some ex else None) in
+    let leaf = match vars O with Some v -> Val v | None -> Stuck in
+    let rec loop i acc =
+      if i = 0 then acc
+      else match acc with
+        | Val v -> loop (i - 1) (den vars (Node (fsym, zero, [Node (constant_sym Z0 v O, zero, []); cnode])))
+        | o -> o in
+    let d = show_outcome (loop n leaf) in
+    Buffer.add_string buf (Printf.sprintf " | R %s D %s S - A -" d d)
+  done;
+  Buffer.contents buf
+
 let () =
   try
     while true do
       let line = input_line stdin in
-      (try print_endline (do_case (split_ws line))
+      (try print_endline (match split_ws line with
+                          | "CHAIN" :: rest -> do_chain rest
+                          | w -> do_case w)
        with e -> print_endline ("BADLINE " ^ Printexc.to_string e))
     done
   with End_of_file -> ()
